@@ -15,11 +15,13 @@ Open Scope Z_scope.
 
 Record obj := { o_prot : option cosemap; o_unprot : option cosemap; o_payload : option bytes;
                 o_mm : option wire; o_shared : bool;
-                o_recips : list recip }.          (* COSE_Mac / COSE_Encrypt: m.recipients (AddRecipient, UnmarshalCBOR) *)
+                o_recips : list recip;            (* COSE_Mac / COSE_Encrypt: m.recipients (AddRecipient, UnmarshalCBOR) *)
+                o_sigs : option (list sigent) }.   (* COSE_Sign: m.mm.Signatures (None = nil slice) *)
 
-Definition fresh : obj := {| o_prot := None; o_unprot := None; o_payload := None; o_mm := None; o_shared := false; o_recips := [] |}.
+Definition fresh : obj := {| o_prot := None; o_unprot := None; o_payload := None; o_mm := None; o_shared := false; o_recips := []; o_sigs := None |}.
 
-Record prims := { pr_sig : sigprim; pr_mac : macprim; pr_enc : encprim }.
+Record prims := { pr_sig : sigprim; pr_mac : macprim; pr_enc : encprim;
+                  pr_sigs : list sigprim }.       (* COSE_Sign: the signers / verifiers handed to WithSign / Verify *)
 Definition is_enc (k : kind) : bool := match k with KEnc0 | KEnc => true | _ => false end.
 Definition has_recips (k : kind) : bool := match k with KMac | KEnc => true | _ => false end.
 Definition pr_key (k : kind) (p : prims) : cosemap :=
@@ -48,18 +50,18 @@ Definition set_mm_unprot (w : wire) (u : option cosemap) : wire :=
 Definition upd_unprot (o : obj) (u : cosemap) : obj :=
   {| o_prot := o_prot o; o_unprot := Some u; o_payload := o_payload o;
      o_mm := if o_shared o then option_map (fun w => set_mm_unprot w (Some u)) (o_mm o) else o_mm o;
-     o_shared := o_shared o; o_recips := o_recips o |}.
+     o_shared := o_shared o; o_recips := o_recips o; o_sigs := o_sigs o |}.
 (* m.Unprotected is assigned another map (or nil) *)
 Definition new_unprot (o : obj) (u : option cosemap) : obj :=
-  {| o_prot := o_prot o; o_unprot := u; o_payload := o_payload o; o_mm := o_mm o; o_shared := false; o_recips := o_recips o |}.
+  {| o_prot := o_prot o; o_unprot := u; o_payload := o_payload o; o_mm := o_mm o; o_shared := false; o_recips := o_recips o; o_sigs := o_sigs o |}.
 Definition with_prot (o : obj) (p : option cosemap) : obj :=
-  {| o_prot := p; o_unprot := o_unprot o; o_payload := o_payload o; o_mm := o_mm o; o_shared := o_shared o; o_recips := o_recips o |}.
+  {| o_prot := p; o_unprot := o_unprot o; o_payload := o_payload o; o_mm := o_mm o; o_shared := o_shared o; o_recips := o_recips o; o_sigs := o_sigs o |}.
 Definition with_payload (o : obj) (b : option bytes) : obj :=
-  {| o_prot := o_prot o; o_unprot := o_unprot o; o_payload := b; o_mm := o_mm o; o_shared := o_shared o; o_recips := o_recips o |}.
+  {| o_prot := o_prot o; o_unprot := o_unprot o; o_payload := b; o_mm := o_mm o; o_shared := o_shared o; o_recips := o_recips o; o_sigs := o_sigs o |}.
 Definition install (o : obj) (w : wire) : obj :=
-  {| o_prot := o_prot o; o_unprot := o_unprot o; o_payload := o_payload o; o_mm := Some w; o_shared := true; o_recips := o_recips o |}.
+  {| o_prot := o_prot o; o_unprot := o_unprot o; o_payload := o_payload o; o_mm := Some w; o_shared := true; o_recips := o_recips o; o_sigs := o_sigs o |}.
 Definition with_recips (o : obj) (rs : list recip) : obj :=
-  {| o_prot := o_prot o; o_unprot := o_unprot o; o_payload := o_payload o; o_mm := o_mm o; o_shared := o_shared o; o_recips := rs |}.
+  {| o_prot := o_prot o; o_unprot := o_unprot o; o_payload := o_payload o; o_mm := o_mm o; o_shared := o_shared o; o_recips := rs; o_sigs := o_sigs o |}.
 
 Definition res_out {A} (r : res A) : out := match r with Ok _ => ROk | Err => RErr | Panic => RPanic end.
 
@@ -78,7 +80,7 @@ Definition decode_step (k : kind) (o : obj) (data : bytes) : obj * out :=
                         | _, Some ((_ :: _) as x) => Some x
                         | _, _ => o_payload o               (* an absent or empty payload leaves the field as it was *)
                         end in
-              ({| o_prot := Some prot; o_unprot := w_unprot w; o_payload := pl; o_mm := Some w; o_shared := true; o_recips := rs |}, ROk)
+              ({| o_prot := Some prot; o_unprot := w_unprot w; o_payload := pl; o_mm := Some w; o_shared := true; o_recips := rs; o_sigs := o_sigs o |}, ROk)
           | Err => (with_prot o None, RErr)                 (* m.Protected, err = HeadersFromBytes(..) assigns nil *)
           | Panic => (o, RPanic)
           end
@@ -196,7 +198,7 @@ Definition marshal_out (k : kind) (o : obj) : out :=
   | None => RErr
   end.
 
-Definition step (k : kind) (o : obj) (e : op) : obj * out :=
+Definition step5 (k : kind) (o : obj) (e : op) : obj * out :=
   match e with
   | ODecode data => decode_step k o data
   | OProduce p ext draw => produce_step k o p ext draw
@@ -212,9 +214,103 @@ Definition step (k : kind) (o : obj) (e : op) : obj * out :=
   | OAddRecip r => (with_recips o (o_recips o ++ [r])%list, ROk)
   end.
 
+
+(* ---------------------------------------------------------------- COSE_Sign (SignMessage) *)
+Definition with_sigs (o : obj) (w : wire) (sg : option (list sigent)) : obj :=
+  {| o_prot := o_prot o; o_unprot := o_unprot o; o_payload := o_payload o; o_mm := Some w; o_shared := true; o_recips := o_recips o; o_sigs := sg |}.
+
+Definition sign_decode_step (o : obj) (data : bytes) : obj * out :=
+  match unmarshal_wire KSign data with
+  | Ok w =>
+      match sigs_decode (w_extra w) with            (* a nil Signature refuses the message before any field is touched *)
+      | Ok sg =>
+          match headers_from_bytes (w_prot w) with
+          | Ok prot =>
+              let pl := match w_payload w with Some ((_ :: _) as x) => Some x | _ => o_payload o end in
+              ({| o_prot := Some prot; o_unprot := w_unprot w; o_payload := pl; o_mm := Some w; o_shared := true; o_recips := o_recips o; o_sigs := sg |}, ROk)
+          | Err => (with_prot o None, RErr)
+          | Panic => (o, RPanic)
+          end
+      | Err => (o, RErr)
+      | Panic => (o, RPanic)
+      end
+  | Err => (o, RErr)
+  | Panic => (o, RPanic)
+  end.
+
+(* the per-signer loop of WithSign: the COSE_Signature entries as the object holds them (a created entry has no
+   received protected bytes: Verify and MarshalCBOR encode its Protected map, se_raw stands for that encoding) *)
+Fixpoint sign_entries (ps : list sigprim) (pb : bytes) (ext payload : option bytes) : res (list sigent) :=
+  match ps with
+  | [] => Ok []
+  | p :: r =>
+      (* (both buckets of a signer are {alg} / {kid} maps made by the library: their encodings never fail; the check is
+         placed where Msg.sign_all has it) *)
+      match headers_bytes (signer_protected (sg_key p)), enc_cosemap (signer_unprotected (sg_key p)) with
+      | Some sp, Some _ =>
+          do tbs <- structure KSign (Some pb) (Some sp) ext payload;
+          do sig <- sg_sign p tbs;
+          do rest <- sign_entries r pb ext payload;
+          Ok ({| se_prot := signer_protected (sg_key p); se_raw := sp; se_unprot := Some (signer_unprotected (sg_key p)); se_sig := Some sig |} :: rest)
+      | _, _ => Err
+      end
+  end.
+
+Definition sign_produce_step (o : obj) (ps : list sigprim) (ext : option bytes) : obj * out :=
+  match ps with
+  | [] => (o, RErr)
+  | _ =>
+      (* nil header maps become empty maps; nothing of the signers' keys goes into the body headers *)
+      let o0 := with_prot o (Some (omap (o_prot o))) in
+      let o1 := match o_unprot o with Some _ => o0 | None => new_unprot o0 (Some []) end in
+      match headers_bytes (omap (o_prot o)) with
+      | None => (o1, RErr)
+      | Some pb =>
+          match sign_entries ps pb ext (o_payload o) with
+          | Ok l => (with_sigs o1 {| w_prot := Some pb; w_unprot := o_unprot o1; w_payload := o_payload o; w_auth := None; w_extra := None |} (Some l), ROk)
+          | r => (o1, res_out r)
+          end
+      end
+  end.
+
+Definition sign_consume_step (o : obj) (vs : list sigprim) (ext : option bytes) : obj * out :=
+  match vs with
+  | [] => (o, RErr)
+  | _ =>
+      match o_mm o, o_sigs o with
+      | Some w, Some (s :: r) => (o, res_out (verify_all vs w ext (s :: r)))
+      | _, _ => (o, RErr)
+      end
+  end.
+
+Definition marshal_sign (w : wire) (sg : list sigent) : option bytes :=
+  match enc_headers_field (w_unprot w), all_some (map sigent_marshal sg) with
+  | Some u, Some ss => Some (enc_tagged (cose_tag KSign) (enc_array [enc_bytes (w_prot w); u; enc_bytes (w_payload w); enc_array ss]))
+  | _, _ => None
+  end.
+
+Definition sign_marshal_out (o : obj) : out :=
+  match o_mm o, o_sigs o with
+  | Some w, Some sg => match marshal_sign w sg with Some b => RBytes b | None => RErr end
+  | _, _ => RErr
+  end.
+
+Definition step_sign (o : obj) (e : op) : obj * out :=
+  match e with
+  | ODecode data => sign_decode_step o data
+  | OProduce p ext _ => sign_produce_step o (pr_sigs p) ext
+  | OConsume p ext => sign_consume_step o (pr_sigs p) ext
+  | OMarshal => (o, sign_marshal_out o)
+  | OAddRecip _ => (o, RNone)
+  | _ => step5 KSign o e                 (* the edits of the exported fields are those of every kind *)
+  end.
+
+Definition step (k : kind) (o : obj) (e : op) : obj * out :=
+  match k with KSign => step_sign o e | _ => step5 k o e end.
+
 (* the trace of a history: the outcome of every call and the exported fields after it *)
-Definition snap := (option cosemap * option cosemap * option bytes * list recip)%type.
-Definition snap_of (o : obj) : snap := (o_prot o, o_unprot o, o_payload o, o_recips o).
+Definition snap := (option cosemap * option cosemap * option bytes * list recip * option (list sigent))%type.
+Definition snap_of (o : obj) : snap := (o_prot o, o_unprot o, o_payload o, o_recips o, o_sigs o).
 Fixpoint run (k : kind) (o : obj) (ops : list op) : list (out * snap) :=
   match ops with
   | [] => []
